@@ -60,6 +60,9 @@ func (interp *Interpreter) SingleStepStateTransition(pc ProgramCounter) (ExitRea
 		return exitReason, 0
 	case HOST_CALL: // host-call: newPC = pc
 		return exitReason, newPC
+	case PAGE_FAULT, OUT_OF_GAS:
+		// (GP A.1) the faulting instruction has not executed: the counter stays on it
+		return exitReason, pc
 	}
 
 	if pc != newPC {
